@@ -12,7 +12,9 @@
 #define C05_ENV_H
 
 #if defined(C05_KEY_hsc) || defined(C05_KEY_hss)
-#define C05_ERRF(c)  ((c)->eng.err)
+/* handshake programs: "failed" = the engine is closed (br_ssl_engine_fail, also with error code 0 =
+   clean closure); the engine never resumes the coroutine once closed (C06) */
+#define C05_ERRF(c)  ((c)->eng.iomode == BR_IO_FAILED)
 #else
 #define C05_ERRF(c)  ((c)->err)
 #endif
@@ -31,6 +33,16 @@ static void
 c05_env_common(T0N_CTXT *c)
 {
 	(void)c;
+	/* shift counts of the T0 code are 0..31 (literals at most call sites; stated for the others) */
+#ifdef C05_OP_lt_lt
+	if (OP == C05_OP_lt_lt) { ASSUME(C05_TOP(0) <= 31); }
+#endif
+#ifdef C05_OP_gt_gt
+	if (OP == C05_OP_gt_gt) { ASSUME(C05_TOP(0) <= 31); }
+#endif
+#ifdef C05_OP_u_gt_gt
+	if (OP == C05_OP_u_gt_gt) { ASSUME(C05_TOP(0) <= 31); }
+#endif
 #ifdef C05_OP_data_get8
 	/* data-get8: the T0 code walks the constant data block from literal start offsets up to a terminator */
 	if (OP == C05_OP_data_get8) {
